@@ -194,6 +194,10 @@ def c04(E, blt, opts, r):
                     else:
                         holds = has_quota(pc['vote'], prev['quota']) and fv(E, prev['quota']) > 0
                     if holds:
+                        if rule == 'qpq':
+                            # K17: a quotient of 10**9 or more makes every ballot's share 1/quotient truncate to 0 at QPQ's nine places
+                            S9 = scale_of(E) or 1
+                            sig = dict(sig, share_underflow=any(x.get('quotient') is not None and fv(E, x['quotient']) >= S9 for x in prev['cstate'].values()))
                         out.append(V_('c04-excluded-with-quota', "candidate %d excluded at %r while holding %s >= quota %s" %
                                       (cid, a['msg'], pc['vote'], prev['quota']), **sig))
         # nobody is left undecided while holding a quota: an exclusion or surplus transfer (the step after the
